@@ -76,7 +76,7 @@ func init() {
 		a, p := unhx(o["a"]), unhx(o["p"])
 		var r *big.Int
 		var ok bool
-		if !returnsWithin(10*time.Second, func() { r, ok = gabi.VerifPrimeSqrt(new(big.Int).Set(a), new(big.Int).Set(p)) }) {
+		if !returnsWithin(2*time.Second, func() { r, ok = gabi.VerifPrimeSqrt(new(big.Int).Set(a), new(big.Int).Set(p)) }) {
 			return "diverges"
 		}
 		if !ok {
@@ -98,7 +98,7 @@ func init() {
 		}
 		var r *big.Int
 		var ok bool
-		if !returnsWithin(10*time.Second, func() { r, ok = gabi.VerifModSqrt(new(big.Int).Set(a), fs) }) {
+		if !returnsWithin(2*time.Second, func() { r, ok = gabi.VerifModSqrt(new(big.Int).Set(a), fs) }) {
 			return "diverges"
 		}
 		if !ok {
